@@ -102,7 +102,7 @@ def build_complex(ctx):
     shapes, dim, desc)."""
     from pyiga import bspline, geometry
     g = ctx.ch.stream('geo')
-    kind = g.weighted([('box2', 5), ('ring', 3), ('box3', 2)])
+    kind = g.weighted([('box2', 5), ('ring', 3), ('box3', 2), ('annulus', 2)])
     desc = {'kind': kind}
     lin = bspline.make_knots(1, 0.0, 1.0, 1)
     patches, corners = [], []
@@ -152,6 +152,43 @@ def build_complex(ctx):
             geo = geometry.BSplineFunc((lin,) * dim, co)
             patches.append((tuple(kvs), geo))
             corners.append(co)
+    elif kind == 'annulus':
+        # k >= 2 curved patches around a hole; for k = 2 the SAME two patches share TWO faces
+        dim = 2
+        k = g.weighted([(2, 4), (3, 2), (4, 1), (5, 1)])
+        degs = [g.intrange(1, 3), g.intrange(2, 3)]          # radial, angular
+        nint = [g.intrange(1, 2), g.intrange(1, 2)]
+        desc.update(k=k, degs=degs, nint=nint, reparam=[])
+        ang_kv = bspline.KnotVector(np.array([0, 0, 0, .5, 1, 1, 1.]), 2)
+        dl = 2 * np.pi / k
+        for i in range(k):
+            t0 = i * dl
+            rr = lambda t, s=1.0: s * np.array([np.cos(t), np.sin(t)])      # noqa
+            Q = [rr(t0), rr(t0 + dl / 4, 1 / np.cos(dl / 4)), rr(t0 + 3 * dl / 4, 1 / np.cos(dl / 4)), rr(t0 + dl)]
+            base = np.zeros((2, 4, 2))
+            for ir, rad in enumerate((1.0, 2.0)):
+                for ia in range(4):
+                    base[ir, ia] = rad * Q[ia]
+            # space knot vectors on the base axes (0: radial, 1: angular; the angular one keeps the geometry's
+            # interior knot so that the spaces of neighbouring patches are conforming)
+            brk = [np.linspace(0.0, 1.0, nint[0] + 1), np.linspace(0.0, 1.0, 2 * nint[1] + 1)]
+            base_kvs = [_kv(bspline, degs[0], brk[0]), _kv(bspline, degs[1], brk[1])]
+            base_gkvs = [lin, ang_kv]
+            perm = g.pick([(0, 1), (1, 0)])
+            fl = tuple(bool(g.choice(2)) for _ in range(2))
+            desc['reparam'].append([i, list(perm), [int(f) for f in fl]])
+            co = np.transpose(base, tuple(perm) + (2,))
+            kvs = [base_kvs[perm[0]], base_kvs[perm[1]]]
+            gkvs = [base_gkvs[perm[0]], base_gkvs[perm[1]]]
+            for kk in range(2):
+                if fl[kk]:
+                    co = np.flip(co, axis=kk)       # all knot vectors used here are mirror symmetric
+            co = np.ascontiguousarray(co)
+            geo = geometry.BSplineFunc(tuple(gkvs), co)
+            patches.append((tuple(kvs), geo))
+            # sample points (parameters 0, 1/2, 1) instead of corners: curved faces of different patches can
+            # share both end points
+            corners.append(np.asarray(geo.grid_eval([np.array([0.0, 0.5, 1.0])] * 2)))
     else:
         dim = 2
         k = g.intrange(3, 6)
@@ -197,8 +234,8 @@ def ground_truth_interfaces(cx):
         for ax in range(dim):
             for side in (0, 1):
                 sl = [slice(None)] * dim
-                sl[ax] = side
-                faces.append((p, (ax, side), co[tuple(sl)]))   # shape (2,)*(dim-1)+(dim,)
+                sl[ax] = 0 if side == 0 else -1
+                faces.append((p, (ax, side), co[tuple(sl)]))   # shape (2 or 3,)*(dim-1)+(dim,)
     out = []
     for (p1, bd1, c1), (p2, bd2, c2) in itertools.combinations(faces, 2):
         if p1 == p2:
@@ -208,7 +245,7 @@ def ground_truth_interfaces(cx):
             for j, f in enumerate(flip):
                 if f:
                     c2f = np.flip(c2f, axis=j)
-            if np.allclose(c1, c2f, atol=1e-9):
+            if c1.shape == c2f.shape and np.allclose(c1, c2f, atol=1e-9):
                 out.append((p1, bd1, p2, bd2, tuple(flip)))
                 break
     return out
